@@ -76,6 +76,10 @@ M = [
   "                parts[p]->H.resize(parts[p]->getSize(),parts[p]->getSize());\n",
   "",
   "non-owner does not allocate the block before receiving it: broadcast writes through a null/short buffer; needs >= 2 ranks"),
+ ("M19_omp_shared_temporary", ["C06"], "src/pomerol/TwoParticleGF.cpp",
+  "            int wsize = freqs_->size();\n            #ifdef POMEROL_USE_OPENMP\n            #pragma omp parallel for\n            #endif\n            for (int w = 0; w < wsize; ++w) {\n                (*data_)[w] += (*p)(boost::get<0>((*freqs_)[w]), boost::get<1>((*freqs_)[w]), boost::get<2>((*freqs_)[w]));",
+  "            int wsize = freqs_->size();\n            ComplexType value;\n            #ifdef POMEROL_USE_OPENMP\n            #pragma omp parallel for\n            #endif\n            for (int w = 0; w < wsize; ++w) {\n                value = (*p)(boost::get<0>((*freqs_)[w]), boost::get<1>((*freqs_)[w]), boost::get<2>((*freqs_)[w]));\n                (*data_)[w] += value;",
+  "a temporary hoisted out of the OpenMP loop becomes shared between the threads: a data race between iterations - invisible to serialised logical threads, needs real threads (TSan probe)"),
  ("N02_sort_ascending", ["C16", "C06"], "include/mpi_dispatcher/mpi_skel.hpp",
   "            return (this_->parts[l].complexity > this_->parts[r].complexity); } BOOST_LOCAL_FUNCTION_NAME_TPL(comp1) ",
   "            return (this_->parts[l].complexity < this_->parts[r].complexity); } BOOST_LOCAL_FUNCTION_NAME_TPL(comp1) ",
